@@ -250,3 +250,11 @@ def c15(tier, seed):
 
 
 CHECKS.update({"C15": c15})
+
+
+def c16(tier, seed):
+    import c16 as m
+    return m.run(tier, seed)
+
+
+CHECKS.update({"C16": c16})
